@@ -202,6 +202,10 @@ func checkC05(c *Ctx, r *Report) {
 
 	checkFieldFacts(c, r)
 	checkLayerConsumption(c, r)
+	// the reply-driven enumeration run during session establishment is bounded by its own
+	// counter, not only by the caller's context (shared with C16): a BMC that always answers
+	// with full chunks cannot keep discovery going
+	checkChunkLoop(c, r)
 	if c.Tier == "thorough" {
 		bceCrossCheck(c, r, e)
 	}
